@@ -32,7 +32,8 @@ def parts(tier):
     return [Part("missed", strategy=evrun.event_case("missed", terminal_mode="none"), examples=1000 if q else 20000, timeout=300),
             Part("near_tangent", strategy=_near_tangent(), examples=300 if q else 6000, timeout=300),
             Part("tiny_steps", strategy=_tiny_steps(), examples=150 if q else 3000, timeout=300),
-            Part("junction", strategy=_junction(), examples=300 if q else 6000, timeout=300)]
+            Part("junction", strategy=_junction(), examples=300 if q else 6000, timeout=300),
+            Part("multi_crossing", strategy=_multi_crossing(), examples=300 if q else 6000, timeout=300)]
 
 
 @st.composite
@@ -91,6 +92,30 @@ def _tiny_steps(draw):
         evs.append(p)
     return dict(part="tiny_steps", method=method, dtype="float64", prob=dict(kind="const", y0=[0.25, -1.0], v=[1.0, 0.5]), t0=t0, tf=tf, dt=h,
                 rtol=1e-6, atol=1e-6, dense=draw(st.booleans()), events=evs)
+
+
+@st.composite
+def _multi_crossing(draw):
+    """g = s prod (t - r_i) / w with 3 or 5 simple roots inside ONE step of a fixed-step run (net sign change over the step,
+    inner crossings going the other way): a root finder that lands on an inner root sees a crossing against the requested
+    direction although a compatible one lies in the same step"""
+    method = draw(st.sampled_from(["RK4Solver", "EulerSolver", "MidpointSolver", "RK5Solver", "HeunsSolver", "SymplecticEulerSolver", "RK45CKSolver", "ImplicitMidpoint"]))
+    fam = M.family(M.get(method))
+    t0 = draw(st.sampled_from([0.0, 1.0, -3.0, 64.0]))
+    h = draw(st.sampled_from([1 / 16.0, 1 / 4.0, 1.0]))
+    N = draw(st.integers(2, 6))
+    sgn = draw(st.sampled_from([1.0, 1.0, -1.0]))
+    tf = t0 + sgn * N * h
+    evs = []
+    for _ in range(draw(st.integers(1, 3))):
+        k = draw(st.integers(0, N - 1))
+        nroots = draw(st.sampled_from([3, 3, 5]))
+        fr = sorted(draw(st.lists(st.sampled_from([0.08, 0.15, 0.2, 0.3, 0.42, 0.5, 0.55, 0.63, 0.7, 0.8, 0.9, 0.94]), min_size=nroots, max_size=nroots, unique=True)))
+        evs.append(dict(h="timeodd", s=draw(st.sampled_from([1.0, -1.0, 1e4, -1e-3])), direction=draw(st.sampled_from([1, -1, 0])), terminal=False,
+                        roots=[t0 + sgn * (k + f) * h for f in fr], w=h, c=0.0, ret=draw(st.sampled_from(["0d", "arr1"]))))
+    prob = dict(kind="rot", y0=[1.0, 0.0], w=0.5) if fam == "splitting" else dict(kind="const", y0=[0.25, -1.0], v=[1.0, 0.5])
+    return dict(part="multi_crossing", method=method, dtype="float64", prob=prob, t0=t0, tf=tf, dt=h * draw(st.sampled_from([1.0, -1.0])),
+                rtol=1e-3, atol=1e-3, dense=draw(st.booleans()), events=evs)
 
 
 @st.composite
